@@ -60,6 +60,54 @@ def read_order(a):
     return a.fail_order if a.op == "cas" else a.order
 
 
+def _type_of(fn, d):
+    d0 = d
+    d = strip_cast(d)
+    if isinstance(d0, dict) and d0.get("k") == "cast":
+        return d0.get("t")
+    if not isinstance(d, dict):
+        return None
+    if d.get("k") == "p":
+        i = d.get("i")
+        return fn.params[i]["type"] if i is not None and i < len(fn.params) else None
+    if d.get("k") == "l":
+        return fn.vars.get(str(d.get("id")), {}).get("type")
+    if d.get("k") == "e":
+        ev = fn.events.get(d.get("id"))
+        return ev.get("rtype") or ev.get("type") if ev else None
+    return None
+
+
+def version_width(ctx, rule, fb):
+    """slot versions live modulo 2^16: the ticket -> version mapping must return the width SlotFutex::version() returns, and
+    every (in)equality in a queue function that has a 16-bit operand compares it with a 16-bit operand"""
+    from bsa.graph import cond_atoms
+    vt = set(f.d.get("rtype") for f in fb.find(pred=lambda f: re.search(r"ConcurrentBoundedQueue<.*>::SlotFutex$", f.record or "") and f.name == "version"))
+    n = 0
+    for fn in fb.find(pred=lambda f: is_queue_fn(f) and f.name in ("push_version_for_index", "pop_version_for_index")):
+        n += 1
+        ctx.ob(rule, L.short(fn), len(vt) == 1 and fn.d.get("rtype") in vt, fn.loc,
+               "the expected version of a ticket is returned as '%s' but a slot publishes its version as '%s' (modulo 2^16): after "
+               "32768 laps of the ring the two are never equal again and every try_ operation fails on an empty / non-full queue" %
+               (fn.d.get("rtype"), "/".join(sorted(str(x) for x in vt))), site="%s@version-width" % fn.name)
+    for fn in fb.find(pred=lambda f: is_queue_fn(f) and f.has_cfg() and not f.lambda_):
+        for bid, b in fn.blocks.items():
+            if "cond" not in b:
+                continue
+            atom, _ = cond_atoms(b["cond"], True)
+            c = L.cmp_parts(atom)
+            if not c or c[0] not in ("==", "!="):
+                continue
+            tl, tr = _type_of(fn, c[1]), _type_of(fn, c[2])
+            if tl is None or tr is None or "unsigned short" not in (tl, tr):
+                continue
+            n += 1
+            ctx.ob(rule, "%s@%s" % (L.short(fn)[:100], b.get("cond_line")), tl == tr, "%s:%s" % (fn.file, b.get("cond_line")),
+                   "a 16-bit slot version is compared with a value carried in '%s'" % (tr if tl == "unsigned short" else tl),
+                   site="%s@version-compare" % fn.name)
+    ctx.floor(rule, n, 6, "version mapping functions and version comparisons")
+
+
 def geometry_rebase(ctx, rule, fb):
     """a queue function that changes the field the round number is computed from (_slot_bits) stores 0 to every ticket
     counter on every path through that write to a return (shared: every component that re-sizes its queue relies on it)"""
@@ -524,6 +572,8 @@ def run(ctx):
 
     # ---------------------------------------------------------------- R11 a change of ring geometry re-bases both tickets
     geometry_rebase(ctx, "C01.R11", fb)
+    # ---------------------------------------------------------------- R6d versions are 16 bits wide wherever they are compared
+    version_width(ctx, "C01.R6d", fb)
 
     # ---------------------------------------------------------------- R10 errno is reset before a wait whose errno is tested
     errno_discipline(ctx, "C01.R10", fb)       # conditional: applies where a wait loop tests errno at all
@@ -536,5 +586,8 @@ SWEEP = ["concurrent/test_bounded_queue.cpp", "concurrent/test_bounded_queue_pre
 # name anchors (validated by tools/rename_sweep.py; a vanished name is exit 2, see core.check_anchor_names)
 ANCHORS = {
     '_slot_bits': ['^babylon::ConcurrentBoundedQueue(<|$)'],
+    '_slot_mask': ['^babylon::ConcurrentBoundedQueue(<|$)'],
+    'pop_version_for_index': ['^babylon::ConcurrentBoundedQueue(<|$)'],
     'push_version_for_index': ['^babylon::ConcurrentBoundedQueue(<|$)'],
+    'try_deal_n_continuously': ['^babylon::ConcurrentBoundedQueue(<|$)'],
 }
